@@ -29,6 +29,47 @@ type observed struct {
 	out  *lab.RawResponse
 	seen *lab.SeenRequest // nil: the request never reached a backend
 	path string           // proxied | 429 | 503 | 413 | 401 | other
+	// what the scripted backend put into its own response under the ID header names
+	backendMode  string
+	backendNames []string
+}
+
+func ownValue(name string) string { return "backend-own-" + strings.ToLower(name) }
+
+// backendSent lists the field lines the backend's response itself carried under `name` (a service that
+// echoes the correlation ID it was handed, or numbers its responses itself). They are the backend's
+// end-to-end response headers, which the proxy relays (C01); the statement is about the value Helios
+// reports, which must come first.
+func (ob observed) backendSent(name string) []string {
+	if ob.seen == nil {
+		return nil
+	}
+	mine := false
+	for _, n := range ob.backendNames {
+		mine = mine || n == http.CanonicalHeaderKey(name)
+	}
+	if !mine {
+		return nil
+	}
+	switch ob.backendMode {
+	case "echo":
+		return ob.seen.Header.Values(name)
+	case "own":
+		return []string{ownValue(name)}
+	}
+	return nil
+}
+
+func sameLines(a, b []string) bool {
+	if len(a) != len(b) {
+		return false
+	}
+	for i := range a {
+		if a[i] != b[i] {
+			return false
+		}
+	}
+	return true
 }
 
 func buildRequest(lc labCfg, ec *exchangeCase, caseID string) *lab.RawRequest {
@@ -88,6 +129,16 @@ func runExchangeOpt(l *lab.SocketLab, lc labCfg, ec *exchangeCase, c *conn, hold
 		script.Framing = "none"
 	}
 	script.Hold = hold != nil
+	script.Interim = ec.Interim
+	rn, tn := lc.names()
+	switch ec.Backend {
+	case "echo":
+		script.Echo = []string{rn, tn}
+	case "own":
+		script.Header = append(script.Header, lab.KV{K: rn, V: ownValue(rn)}, lab.KV{K: tn, V: ownValue(tn)})
+	}
+	ob.backendMode = ec.Backend
+	ob.backendNames = []string{rn, tn}
 	exs := l.ExpectAll(caseID, script)
 	defer l.ForgetAll(caseID)
 	if hold != nil {
@@ -180,8 +231,8 @@ func runExchangeOpt(l *lab.SocketLab, lc labCfg, ec *exchangeCase, c *conn, hold
 func oneID(feature string, enabled, transformer bool, name string, v idVal, ob observed) (viol string, generated string) {
 	got := ob.out.Header.Values(name)
 	if !enabled && !transformer {
-		if len(got) != 0 {
-			return fmt.Sprintf("%s disabled, but the response carries %s: %s", feature, name, quoteAll(got)), ""
+		if sent := ob.backendSent(name); !sameLines(got, sent) {
+			return fmt.Sprintf("%s disabled, but the response carries %s: %s (the backend's own response carried %s)", feature, name, quoteAll(got), quoteAll(sent)), ""
 		}
 		if ob.seen != nil {
 			bs := ob.seen.Header.Values(name)
@@ -197,8 +248,8 @@ func oneID(feature string, enabled, transformer bool, name string, v idVal, ob o
 	if transformer && !enabled && ob.seen == nil && len(got) == 0 {
 		return "", "" // the plugin sits behind the element of the chain that answered; nothing ran that could add it
 	}
-	if len(got) != 1 {
-		return fmt.Sprintf("%s enabled: the response (status %d, path %s) carries %d field lines for %s, want exactly one: %s", feature, ob.out.Status, ob.path, len(got), name, quoteAll(got)), ""
+	if sent := ob.backendSent(name); len(got) < 1 || !sameLines(got[1:], sent) {
+		return fmt.Sprintf("%s enabled: the response (status %d, path %s) carries %d field lines for %s: %s; want exactly one, followed only by what the backend's own response carried (%s)", feature, ob.out.Status, ob.path, len(got), name, quoteAll(got), quoteAll(sent)), ""
 	}
 	id := got[0]
 	if id == "" {
